@@ -91,6 +91,10 @@ def do_route(pl, pdesc: dict, tdesc: dict, inputs_py: dict, S: list[str], needed
         kw = {"output_names": set(S)}
     elif route == "auto_subpipeline":
         kw = {"output_names": set(S), "auto_subpipeline": True}
+    elif route == "async_output_names":
+        evs, res = do_map_async(pl, inputs_py, needed, output_names=set(S))
+        named = named_in(str(res), tdesc) if isinstance(res, BaseException) else []
+        return [with_request(e, S, named if e["e"] == "reject" else None) for e in evs]
     else:
         raise ValueError(route)
     evs, res = pmap.do_map(target, pdesc, inputs_py, run_folder=run_folder, storage=storage, parallel=False, F=needed,
@@ -99,7 +103,111 @@ def do_route(pl, pdesc: dict, tdesc: dict, inputs_py: dict, S: list[str], needed
     return [with_request(e, S, named if e["e"] == "reject" else None) for e in evs]
 
 
+def do_map_async(pl, inputs_py: dict, needed: list[str], **kw) -> tuple[list[dict], object]:
+    """Pipeline.map_async (thread pool, dict storage, no folder) -> the same events as pmap.do_map."""
+    import asyncio
+    events = [pmap.ev(e="begin", F=needed, cleanup=True, fixed=[], cache=pl.cache is not None)]
+    start = len(build.read_log())
+    ex = ThreadPoolExecutor(2)
+
+    async def go():
+        am = pl.map_async(inputs_py, run_folder=None, storage="dict", executor=ex, **kw)
+        return await am.task
+    try:
+        with contextlib.redirect_stdout(io.StringIO()):
+            res = asyncio.run(go())
+    except (Exception, asyncio.CancelledError) as exn:  # noqa: BLE001
+        ex.shutdown(wait=True)
+        evs = pmap.log_events(start)
+        if not evs:
+            return [pmap.ev(e="reject", F=needed, cleanup=True, fixed=[], cls=type(exn).__name__, msg=str(exn)[:300])], exn
+        kind = "raise" if any(e["e"] == "fail" for e in evs) else "error"
+        return events + evs + [pmap.ev(e=kind, cls=type(exn).__name__, msg=str(exn)[:300])], exn
+    ex.shutdown(wait=True)
+    events += pmap.log_events(start)
+    events.append(pmap.ev(e="return", results=pmap.results_json(res), loaded=[]))
+    return events, res
+
+
 _PL_CACHE: dict[str, tuple] = {}
+
+
+def run_history(job: dict) -> list[dict]:
+    """Requests and mutations on ONE fresh pipeline object (a selection must not change the pipeline it selects from, and a
+    later selection must see the pipeline as it is then).  steps: {"op": "request", S, inputs, route} |
+    {"op": "update_defaults", "out": o, "p": p, "v": v} | {"op": "drop", "out": o}; the description is updated alongside."""
+    tdesc = copy.deepcopy(job["desc"])
+    with contextlib.redirect_stdout(io.StringIO()):
+        pl = build.make_pipeline(pmap.tla_desc_to_py(tdesc))
+    out = []
+    for k, st in enumerate(job["steps"]):
+        if st["op"] == "request":
+            build.LOG.clear()
+            pdesc = pmap.tla_desc_to_py(tdesc)
+            evs = do_route(pl, pdesc, tdesc, pmap.inputs_to_py(st["inputs"], None), st["S"], ["*"], st["route"])
+            out.append({"desc": copy.deepcopy(tdesc), "inputs": st["inputs"], "ev": evs, "route": st["route"] + f"@history{k}",
+                        "S": st["S"], "must": "?", "cut": "?", "kinds": None, "dontcare": False})
+            continue
+        fi = next(i for i, f in enumerate(tdesc["funcs"]) if st["out"] in f["outputs"])
+        f = tdesc["funcs"][fi]
+        key = f["outputs"][0] if len(f["outputs"]) == 1 else tuple(f["outputs"])
+        with contextlib.redirect_stdout(io.StringIO()):
+            if st["op"] == "update_defaults":
+                pl[key].update_defaults({st["p"]: build.py_value(st["v"])})
+                f["defaults"] = [x for x in f["defaults"] if x[0] != st["p"]] + [[st["p"], st["v"]]]
+            else:
+                pl.drop(output_name=key)
+                del tdesc["funcs"][fi]
+    return out
+
+
+def history_jobs(rng: random.Random, count: int) -> list[dict]:
+    from .c02 import random_desc
+    jobs = []
+    for n in range(count):
+        td = random_desc(rng, rng.randint(3, 5))
+        for f in td["funcs"]:                        # plain functions (the histories rebuild descriptions step by step)
+            for extra in ("retnone", "outperm", "outrenamed", "renamed"):
+                f.pop(extra, None)
+        # make sure some default is declared by exactly one function and read (without a default) by another one
+        if len(td["funcs"]) >= 2 and rng.random() < 0.8:
+            a, b = rng.sample(range(len(td["funcs"])), 2)
+            for f in (td["funcs"][a], td["funcs"][b]):
+                if "p_sh" not in f["params"]:
+                    f["params"] = f["params"] + ["p_sh"]
+            td["funcs"][a]["defaults"] = td["funcs"][a]["defaults"] + [["p_sh", {"f": "@d_p_sh", "a": []}]]
+        cur = copy.deepcopy(td)
+        steps = []
+        fresh = 0
+        for k in range(rng.choice([3, 4, 5])):
+            outs = [o for f in cur["funcs"] for o in f["outputs"]]
+            if k % 2 == 0 or len(cur["funcs"]) < 2:
+                S = rng.sample(outs, min(len(outs), rng.choice([1, 1, 2])))
+                inter = [o for o in outs if o not in S]
+                given = set(rng.sample(inter, rng.randint(0, min(2, len(inter))))) if rng.random() < 0.5 else set()
+                defaults = {p for f in cur["funcs"] for p, _ in f["defaults"]}
+                _, roots = _closure(cur["funcs"], S, given)
+                I = {r for r in roots if r in given or r not in defaults or rng.random() < 0.3} - set(S)
+                steps.append({"op": "request", "S": sorted(S), "inputs": [[x, pcall.kv(x)] for x in sorted(I)],
+                              "route": rng.choice(ROUTES + ("async_output_names",))})
+            else:
+                owners: dict[str, list[int]] = {}
+                for i, f in enumerate(cur["funcs"]):
+                    for p, _ in f["defaults"]:
+                        owners.setdefault(p, []).append(i)
+                single = [(p, o[0]) for p, o in owners.items() if len(o) == 1]
+                if single and rng.random() < 0.6:
+                    p, i = rng.choice(single)
+                    v = {"f": f"@hd{fresh}_{p}", "a": []}
+                    fresh += 1
+                    steps.append({"op": "update_defaults", "out": cur["funcs"][i]["outputs"][0], "p": p, "v": v})
+                    cur["funcs"][i]["defaults"] = [x for x in cur["funcs"][i]["defaults"] if x[0] != p] + [[p, v]]
+                else:
+                    i = rng.randrange(len(cur["funcs"]))
+                    steps.append({"op": "drop", "out": cur["funcs"][i]["outputs"][0]})
+                    del cur["funcs"][i]
+        jobs.append({"desc": td, "steps": steps})
+    return jobs
 
 
 def run_case(job: dict) -> list[dict]:
@@ -437,7 +545,12 @@ def run(ctx: Ctx) -> None:
 
     # random larger DAGs (TLC computes the needed set)
     rjobs = random_call_style_jobs(rng, 150 if quick else 4000)
+    for j in rjobs[::3]:
+        j["routes"] = ROUTES + ("async_output_names",)
     rtraces = run_jobs(rjobs)
+    hjobs = history_jobs(rng, 60 if quick else 1500)
+    with ProcessPoolExecutor(NPROC, mp_context=mp.get_context("fork")) as pool:
+        rtraces += [t for ts in pool.map(run_history, hjobs, chunksize=max(1, len(hjobs) // (NPROC * 8))) for t in ts]
     mseeds = [rng.randrange(1 << 30) for _ in range(40 if quick else 1200)]
     mtraces = random_mapped_traces(mseeds)
     for t in rtraces + mtraces:
